@@ -270,6 +270,9 @@ func (i *interpreter) slice(x, lo, hi, max value) value {
 	case string:
 		Len = len(x)
 		Cap = len(x)
+	case symstr:
+		Len = len(x)
+		Cap = len(x)
 	case []value:
 		Len = len(x)
 		Cap = cap(x)
@@ -334,6 +337,8 @@ func (i *interpreter) slice(x, lo, hi, max value) value {
 	switch x := x.(type) {
 	case string:
 		return x[l:h]
+	case symstr:
+		return mkStr([]value(x)[l:h])
 	case []value:
 		return x[l:h:m]
 	case *value: // *array
@@ -357,6 +362,8 @@ func (i *interpreter) lookup(instr *ssa.Lookup, x, idx value) value {
 		return v
 	case string:
 		return x[i.indexCheck(idx, len(x), "string index")]
+	case symstr:
+		return x[i.indexCheck(idx, len(x), "string index")]
 	}
 	panic(fmt.Sprintf("unexpected x type in Lookup: %T", x))
 }
@@ -367,6 +374,12 @@ func (i *interpreter) lookup(instr *ssa.Lookup, x, idx value) value {
 func (i *interpreter) binop(op token.Token, t types.Type, x, y value) value {
 	if isSym(x) || isSym(y) {
 		return i.symBinop(op, t, x, y)
+	}
+	if _, ok := x.(symstr); ok {
+		return i.strBinop(op, x, y)
+	}
+	if _, ok := y.(symstr); ok {
+		return i.strBinop(op, x, y)
 	}
 	switch op {
 	case token.QUO, token.REM:
@@ -850,6 +863,20 @@ func (i *interpreter) binop(op token.Token, t types.Type, x, y value) value {
 	panic(fmt.Sprintf("invalid binary op: %T %s %T", x, op, y))
 }
 
+func (i *interpreter) strBinop(op token.Token, x, y value) value {
+	switch op {
+	case token.EQL:
+		return i.strEq(x, y)
+	case token.NEQ:
+		return i.notv(i.strEq(x, y))
+	case token.ADD:
+		a, _ := strBytes(x)
+		b, _ := strBytes(y)
+		return mkStr(append(append([]value(nil), a...), b...))
+	}
+	panic(unsupported{fmt.Sprintf("string operator %s on a symbolic string", op)})
+}
+
 // eqnil returns the comparison x == y using the equivalence relation
 // appropriate for type t.
 // If t is a reference type, at most one of x or y may be a nil value
@@ -1013,6 +1040,12 @@ func callBuiltin(caller *frame, callpos token.Pos, fn *ssa.Builtin, args []value
 		if sl, ok := fn.Type().(*types.Signature).Params().At(0).Type().Underlying().(*types.Slice); ok {
 			esz = i.sizes.Sizeof(sl.Elem())
 		}
+		if ss, ok := args[1].(symstr); ok {
+			if len(arg0)+len(ss) > cap(arg0) {
+				i.account(int64(len(arg0)+len(ss)), callpos)
+			}
+			return append(arg0, []value(ss)...)
+		}
 		if s, ok := args[1].(string); ok {
 			// append([]byte, ...string) []byte
 			if len(arg0)+len(s) > cap(arg0) {
@@ -1040,6 +1073,9 @@ func callBuiltin(caller *frame, callpos token.Pos, fn *ssa.Builtin, args []value
 		if _, ok := src.(string); ok {
 			params := fn.Type().(*types.Signature).Params()
 			src = i.conv(params.At(0).Type(), params.At(1).Type(), src)
+		}
+		if ss, ok := src.(symstr); ok {
+			src = []value(ss)
 		}
 		dst := args[0].([]value)
 		srcv := src.([]value)
@@ -1083,6 +1119,8 @@ func callBuiltin(caller *frame, callpos token.Pos, fn *ssa.Builtin, args []value
 	case "len":
 		switch x := args[0].(type) {
 		case string:
+			return len(x)
+		case symstr:
 			return len(x)
 		case array:
 			return len(x)
@@ -1169,6 +1207,8 @@ func (i *interpreter) rangeIter(x value, t types.Type) iter {
 		return &smapIter{ents: ents}
 	case string:
 		return &stringIter{Reader: strings.NewReader(x)}
+	case symstr:
+		return &symstrIter{i: i, s: x}
 	}
 	panic(fmt.Sprintf("cannot range over %T", x))
 }
@@ -1223,6 +1263,19 @@ func (i *interpreter) conv(t_dst, t_src types.Type, x value) value {
 	if v, ok := i.convUnsafe(t_dst, t_src, x); ok {
 		return v
 	}
+	if ss, ok := x.(symstr); ok {
+		switch d := ut_dst.(type) {
+		case *types.Basic:
+			if d.Kind() == types.String {
+				return ss
+			}
+		case *types.Slice:
+			if b, ok := d.Elem().Underlying().(*types.Basic); ok && b.Kind() == types.Byte {
+				return append([]value(nil), []value(ss)...)
+			}
+		}
+		panic(unsupported{fmt.Sprintf("conversion of a symbolic string to %s", t_dst)})
+	}
 
 	// Destination type is not an "untyped" type.
 	if b, ok := ut_dst.(*types.Basic); ok && b.Info()&types.IsUntyped != 0 {
@@ -1264,16 +1317,7 @@ func (i *interpreter) conv(t_dst, t_src types.Type, x value) value {
 		// []byte or []rune -> string
 		switch ut_src.Elem().Underlying().(*types.Basic).Kind() {
 		case types.Byte:
-			x := x.([]value)
-			b := make([]byte, 0, len(x))
-			for k := range x {
-				if isSym(x[k]) {
-					b = append(b, byte(i.concretize(x[k], "[]byte to string conversion")))
-					continue
-				}
-				b = append(b, x[k].(byte))
-			}
-			return string(b)
+			return mkStr(x.([]value))
 
 		case types.Rune:
 			x := x.([]value)
